@@ -9,7 +9,7 @@ TARGETS = ['clastic.sinter.inject', 'clastic.sinter.make_chain']
 
 # the dispatch loop contract is proof support shared with C06-C08; C02's own clauses are
 # the at-call obligations, execute/execute_error/inject, the lemmas and the template/text checks
-OWN = [r'at-call', r'BoundRoute\.execute', r'sinter\.inject', r'sinter\.make_chain', r'^C02\.', r'^bounded:']
+OWN = [r'at-call', r'/frame$', r'BoundRoute\.execute', r'sinter\.inject', r'sinter\.make_chain', r'^C02\.', r'^bounded:']
 
 CANARIES = [
     {'name': 'execute-resources-override-caller', 'file': 'clastic/route.py',
@@ -76,3 +76,8 @@ def concretise(pc, it):
 def refute(pc, unknown_items):
     pc.native_search(unknown_items, 'c01_search.py',
                      {'budget': 3000 if pc.tier == 'quick' else 30000, 'seed': pc.seed}, 'c01_case.py')
+
+
+def fallback(pc):
+    return [{'script': 'c01_case.py', 'case': GENERAL_CASE},
+            {'script': 'c01_search.py', 'case': {'budget': 3000, 'seed': pc.seed}, 'replay_script': 'c01_case.py'}]
